@@ -309,6 +309,7 @@ def run(prog, rep):
     import_verdicts(prog, rep, "C07", ("DOM-5",), "GATE-1",
                     "`a document that cannot be represented makes the writer raise`: the refusal of documents with validation errors sits in "
                     "ODMLWriter.write_file and has to look at every error of the validation (validation.errors), not at the errors of one object")
+    ct.stateless_tools_rule(prog, rep, "STATE-2", ("XMLWriter", "XMLReader"))
     csv_options_rule(prog, rep, "CSV-2")
 
     # ----------------------------------------------------------------- ORD-3
